@@ -427,6 +427,9 @@ class ExprMixin:
                 for x, y in ((a, b), (b, a)):
                     if y.is_const and y.val is None and x.k in NEVER_NONE:
                         return isinstance(ops[0], ast.IsNot)
+                # identity of two named library objects (operator.eq is operator.eq)
+                if a.k == b.k == 'extfn':
+                    return (a.a[0] == b.a[0]) == isinstance(ops[0], ast.Is)
             return None
         try:
             l = vals[0].val
